@@ -320,7 +320,7 @@ class RandomDecider(object):
                 return slot, Directive('errno', errno.EACCES)
             if 'EACCES' in cfg['errs'] and call in ('unlink', 'rename', 'open') and cls in ('entry', 'stamp', 'tmp'):
                 return slot, Directive('errno', errno.EACCES)
-            if 'EIO' in cfg['errs'] and call == 'read':
+            if 'EIO' in cfg['errs'] and (call == 'read' or (call == 'unlink' and cls in ('entry', 'tmp'))):
                 return slot, Directive('errno', errno.EIO)
         return slot, RUN
 
@@ -422,6 +422,7 @@ class CacheSim(object):
         self._last_slot = None
         self.libfiles = list(LIBFILES)
         self.epoch_decisions = []
+        self.eacces_on_unlink = False
         self.pending_mid = []
         self.version_log = {}          # key -> [(seq from which it is current, version), ...]
         self.world.env_hook = self._fire_mid
@@ -439,6 +440,8 @@ class CacheSim(object):
         seq, now, slot, call, path, ino, res, size = ev
         if res == 'EENOSPC':
             self.probe('enospc_hit:' + call)
+        if call == 'unlink' and res == 'EEACCES!':
+            self.eacces_on_unlink = True       # "permission denied" on removal is ignored by design
         if slot >= 0:
             if self._last_slot is not None and self._last_slot != slot:
                 prev = self.world.procs[self._last_slot]
@@ -618,8 +621,13 @@ class CacheSim(object):
             env['XDG_CACHE_HOME'] = XDG
         return env
 
-    def _cachedir_snapshot(self):
-        node = self.fs.lookup(self.cachedir)
+    def _candidate_cachedirs(self):
+        return [XDG + '/g-ir-scanner', HOME + '/.cache/g-ir-scanner']
+
+    def _cachedir_snapshot(self, path=None):
+        if path is None:
+            return {d: self._cachedir_snapshot(d) for d in self._candidate_cachedirs()}
+        node = self.fs.lookup(path)
         return dict(node.entries) if node is not None and node.kind == 'd' else {}
 
     def op_begin(self, p, op):
@@ -741,7 +749,7 @@ class CacheSim(object):
             elif rec['result'] == 'hit' and opened:
                 # O3 (reader side): data written under another scanner version must not be served
                 node = self.fs.inodes[opened[0][5]]
-                if node.tag.get('sv') != p.version and self.cfg['family'] != 'oserr':
+                if node.tag.get('sv') != p.version and not self.eacces_on_unlink:
                     self.violate('O3', 'O3@%s:served-entry-of-other-scanner-version' % kind, {
                         'op': op, 'slot': p.slot, 'entry_scanner_version': node.tag.get('sv'),
                         'process_scanner_version': p.version})
@@ -751,10 +759,18 @@ class CacheSim(object):
                 self._check_discard(p, rec, key, opened, evs)
         elif kind in ('construct', 'newstore'):
             rec['result'] = 'ok'
-            if self.cfg['family'] != 'oserr' and 'GI_SCANNER_DISABLE_CACHE' not in p.environ:
-                now = self._cachedir_snapshot()
+            # under injected OS errors the purge is still owed, except that "permission denied" on
+            # removing a file is ignored by design (then entries may survive, here and later)
+            if not self.eacces_on_unlink and 'GI_SCANNER_DISABLE_CACHE' not in p.environ:
+                # the directory this process really uses (get_user_cache_dir falls back to
+                # ~/.cache when XDG_CACHE_HOME cannot be created)
+                used = [ev[4] for ev in self._events_of(rec) if ev[2] == p.slot and ev[3] == 'makedirs'
+                        and ev[6] == 'ok' and ev[4] in self._candidate_cachedirs()]
+                # no directory could be created: this process runs without a cache
+                used = used[0] if used else None
+                now = self._cachedir_snapshot(used) if used else {}
                 left = []
-                for name, ino in rec['snap'].items():
+                for name, ino in (rec['snap'].get(used, {}) if used else {}).items():
                     if name == STAMP:
                         continue
                     node = self.fs.inodes[ino]
